@@ -18,6 +18,7 @@ Oracle
 """
 import json
 
+from mc.gen import ex_families as X
 from mc.gen import ex_schemas as S
 from mc.gen import mutations as M
 from mc.gen import operations as O
@@ -74,6 +75,8 @@ def cases(tier):
     ss = seeds(b["seed_nodes"])
     for i in range(len(ss)):
         yield {"k": "seed", "t": tier, "seed": i}
+    for fam in X.FAMILIES:
+        yield {"k": "family", "t": tier, "family": fam}
     for i in range(len(ss)):
         yield {"k": "single", "t": tier, "seed": i}
     if b["mutations"] >= 2:
@@ -190,7 +193,7 @@ def _via(case):
 
 def evaluate(name, case, st, bounds):
     """-> list of (class, detail)"""
-    from py_gql.exc import GraphQLError
+    from py_gql.exc import ExecutionError, VariablesCoercionError
     from py_gql.execution import BlockingExecutor, execute
     from py_gql.lang import parse
     from py_gql.validation import validate_ast
@@ -218,6 +221,9 @@ def evaluate(name, case, st, bounds):
     if st is not None:
         st.n("accepted")
     via = _via(case)
+    sc = response_shape_conflicts(sm, doc)
+    if sc:
+        return [("accepted-but-ambiguous:response-shape/via=%s" % via, "validator accepts, but response key %r has shapes %s depending on the runtime type :: %s" % (sc[0], sc[1], text))]
     opnames = [op.get("name") for op in doc["ops"]] if len(doc["ops"]) > 1 else [None]
     for opname in opnames:
         op = R.Executor(sm, doc).get_operation(opname) if (opname or len(doc["ops"]) == 1) else None
@@ -235,8 +241,9 @@ def evaluate(name, case, st, bounds):
                 try:
                     r = execute(schema(name), ast, operation_name=opname, variables=variables, context_value={"world": world}, executor_cls=BlockingExecutor)
                     dj = json.dumps(r.data)
-                except GraphQLError:
-                    # request errors (variables refused, ...) are allowed outcomes
+                except (ExecutionError, VariablesCoercionError):
+                    # request errors (variables refused, unknown operation, ...) are the allowed outcomes:
+                    # exactly what process_graphql_query turns into a response
                     if st is not None:
                         st.n("request_errors")
                     break
@@ -259,6 +266,72 @@ def evaluate(name, case, st, bounds):
                     out.append(("accepted-but-shape-differs:%s/via=%s" % (R.describe(ref, d), via), "at %r: library %s reference %s; vars %s world %s :: %s" % (d, dj, ref.dumps(), variables, world, text)))
                     return out
     return out
+
+
+def response_shape_conflicts(sm, doc):
+    """Static part of "one unambiguous value per response key ... lists where list types are declared":
+    for every selection set, the fields collected under one response key for the different possible
+    runtime types must have the same wrapper structure and, for leaves, the same named type.
+    -> (response key, sorted shapes) of the first conflict, or None.  Own code over the document model."""
+    frags = {}
+    for fr in doc.get("frags", []):
+        frags.setdefault(fr[0], fr)
+
+    def applies(obj, tc):
+        if tc is None or tc == obj:
+            return True
+        return obj in S.possible_types(sm, tc) if S.is_composite(sm, tc) else False
+
+    def collect(obj, sels, acc, seen):
+        for s_ in sels:
+            if s_[0] == "f":
+                acc.setdefault(s_[2] or s_[1], []).append(s_)
+            elif s_[0] == "i":
+                if applies(obj, s_[1]):
+                    collect(obj, s_[3], acc, seen)
+            elif s_[1] in frags and s_[1] not in seen and applies(obj, frags[s_[1]][1]):
+                seen.add(s_[1])
+                collect(obj, frags[s_[1]][3], acc, seen)
+        return acc
+
+    def shape(ttext):
+        t = S.parse_type(ttext)
+        named = S.named_of(t)
+        return S.type_text(t).replace(named, named if S.is_leaf(sm, named) else "<composite>")
+
+    def walk(parent, selection_lists, depth):
+        if depth > 6 or parent is None or not S.is_composite(sm, parent):
+            return None
+        per_key = {}
+        children = {}
+        for obj in S.possible_types(sm, parent):
+            acc = {}
+            for sels in selection_lists:
+                collect(obj, sels, acc, set())
+            for key, nodes in acc.items():
+                for n in nodes:
+                    if n[1].startswith("__"):
+                        continue
+                    fd = S.fields_of(sm, obj).get(n[1])
+                    if fd is None:
+                        continue
+                    per_key.setdefault(key, set()).add(shape(fd["type"]))
+                    if n[5] is not None:
+                        children.setdefault((key, S.named_of(S.parse_type(fd["type"]))), []).append(n[5])
+        for key, shapes in per_key.items():
+            if len(shapes) > 1:
+                return key, sorted(shapes)
+        for (key, child_type), lists in children.items():
+            r = walk(child_type, lists, depth + 1)
+            if r:
+                return r
+        return None
+
+    for op in doc["ops"]:
+        r = walk(sm.get(op.get("kind", "query")), [op["sels"]], 0)
+        if r:
+            return r
+    return None
 
 
 def _mutant(name, seed_case, j):
@@ -288,11 +361,18 @@ def _single_classes(tier, i):
 
 def check_case(case, st):
     b = BOUNDS[case["t"]]
-    name, seed = seeds(b["seed_nodes"])[case["seed"]]
-    sm = S.SCHEMAS[name]
     out = []
     k = case["k"]
     st.n("kind:" + k)
+    if k != "family":
+        name, seed = seeds(b["seed_nodes"])[case["seed"]]
+        sm = S.SCHEMAS[name]
+    if k == "family":
+        for name, tag, _label, c in X.FAMILIES[case["family"]]():
+            c = dict(c, muts=[tag])
+            for cls, detail in evaluate(name, c, st, b):
+                out.append((cls, {"schema": name, "case": c}, detail))
+        return out
     if k == "seed":
         for cls, detail in evaluate(name, seed, st, b):
             out.append((cls, {"schema": name, "case": seed}, detail))
